@@ -19,6 +19,8 @@ try:
         print(sid, p, 'exit', r.returncode, res[p]['violations'][:2], 'div', res[p]['divergences'], res[p]['tool_error'])
 finally:
     sh('git -C /repo checkout -- . ; git -C /repo clean -qfd src')
+    # the evidence files now describe the changed tree: put the committed ones (unchanged tree) back
+    sh('git -C /verif checkout -- evidence ; git -C /verif clean -qfd evidence')
 old = {}
 if os.path.exists(d + '/result.json'): old = json.load(open(d + '/result.json'))
 old.update(res)
